@@ -18,7 +18,7 @@ class Ext:
         self.E = lib.E
         self._axioms = []
         from . import models
-        self.models = [m(self) for m in models.ALL]
+        self.models = [m(self) for m in models.ALL + models._late()]
 
     def axioms(self):
         out = list(self._axioms)
